@@ -6,7 +6,7 @@ EXTENDS OnError, Json
 CONSTANTS N, EMIT, IncludeCtx
 VARIABLES items
 Msgs == {"m1", "m two"}
-Items == { [k |-> "fail", ctx |-> c, m |-> (IF c = "script" THEN "*" ELSE m)] : c \in (IF IncludeCtx THEN Ctxs ELSE Ctxs \ {"incl"}), m \in Msgs }
+Items == { [k |-> "fail", ctx |-> c, m |-> (IF c \in {"script", "loopscript"} THEN "*" ELSE m)] : c \in (IF IncludeCtx THEN Ctxs ELSE Ctxs \ {"incl"}), m \in Msgs }
    \cup EoeItems \cup { [k |-> "obs"] }
 Init == items = <<>>
 Next == Len(items) < N /\ \E it \in Items : items' = Append(items, it)
